@@ -9,9 +9,12 @@ handlers in first-use order, in reversed order, with an unused handler in front,
 numbers in all handlers / in the first handler only (shared vs distinct handler lists arise
 from the picks).  k=3 uses the reduced alphabet H3 in quick, all of H in thorough.
 Oracle: the generating model.  determineException as a multiset of [start*2, end*2-1, (type,addr*2)..., (Throwable, catch_all*2)]
-with the handler order preserved inside each range; DalvikCode.get_tries / get_handlers in file order.
+with the handler order preserved inside each range; DalvikCode.get_tries / get_handlers in file order; the alternative entry
+points agree (get_tries_size, handler-list and per-handler get_size, TryItem.get_raw, and for the minimal-LEB128 layouts
+DalvikCode.get_raw() reproduces the code item's bytes in the file).
 """
 import itertools
+import struct
 
 from mc.core import Acc, h8
 
@@ -191,6 +194,24 @@ def judge_batch(batch):
             gi = [offs.index(t.get_handler_off()) if t.get_handler_off() in offs else None for t in code.get_tries()]
             if gi != his:
                 out.append((case, "handler_off:" + feat, "try->handler indices %r != %r" % (gi, his)))
+            # the alternative entry points must tell the same story: sizes, per-item re-encodings, the code item's own bytes
+            if code.get_tries_size() != len(tr) or hl.get_size() != len(hls):
+                out.append((case, "sizes:" + feat, "get_tries_size()=%r handlers.get_size()=%r, encoded %d tries / %d handlers"
+                            % (code.get_tries_size(), hl.get_size(), len(tr), len(hls))))
+            sz = [h.get_size() for h in hl.get_list()]
+            wsz = [(-len(p) if ca is not None else len(p)) for p, ca in hls]
+            if sz != wsz:
+                out.append((case, "handler-size:" + feat, "EncodedCatchHandler.get_size() %r != encoded %r" % (sz, wsz)))
+            traw = b"".join(bytes(t.get_raw()) for t in code.get_tries())
+            wraw = b"".join(struct.pack("<IHH", s_, c_, t.get_handler_off()) for (s_, c_), t in zip(tr, code.get_tries()))
+            if traw != wraw:
+                out.append((case, "try-raw:" + feat, "TryItem.get_raw() %s != %s" % (traw.hex(), wraw.hex())))
+            if case[3] in (0, 1, 2):
+                off = m.get_code_off()
+                mine = bytes(code.get_raw())
+                if raw[off:off + len(mine)] != mine:
+                    out.append((case, "code-raw:" + feat, "DalvikCode.get_raw() (%d bytes) differs from the file bytes at the code offset: %s vs %s"
+                                % (len(mine), mine.hex(), raw[off:off + len(mine)].hex())))
         except Exception as e:     # noqa
             out.append((case, "exception:%s:%s" % (type(e).__name__, feat), "%s: %s" % (type(e).__name__, e)))
     return out
